@@ -57,8 +57,127 @@ FIRST_MISSED = {"C09-B": "file-name classes for explicit single-file targets add
                 "C17-B": "leniently accepted and invalid inputs added to C17's default-path windows", "C18-B": "multi-dot / spaced file names, documented-output-name and full-tree idempotence checks added to C18"}
 
 
+NEEDS2 = {
+    "C01-R2A": "luminance taken from the XYZ matrix row (0.2126729/0.7151522/0.0721750): chromatic colours whose true ratio is within ~1e-3 of a threshold",
+    "C01-R2B": "strategy memo keyed without very_readable: same pair/mode/size fixed twice in one interpreter with different very_readable",
+    "C01-R2C": "two cooperating edits (early-exit threshold 7.0 under premium + success recomputed from it): only large_text + very_readable",
+    "C02-R2A": "first binary-search candidate adopted even when its contrast is lower: vivid text brighter than a light-ish background (~2% of random pairs)",
+    "C02-R2B": "Color parse cache keyed on the string only: same translucent rgba()/hsla() string used with two backgrounds in one process",
+    "C02-R2C": "two cooperating edits: premium+large target 7.0 and early exit on target under premium: large+very_readable+mode 0, ratio in [4.5,7)",
+    "C03-R2A": "'hue undefined' chroma tolerance 1e-10 -> 1e-2: faintly tinted near-greys (chroma 0.003-0.01) get hue 0",
+    "C03-R2B": "shared strict step list extended in place by the relaxed fallback: earlier mode-2 call on an unfixable pair in the same process",
+    "C03-R2C": "strict strategy stops passing target/min: only mode 0 with very_readable=True needing more than dE 0.8",
+    "C04-R2A": "make_readable passes the original inputs to the fixer: translucent text on a non-white background re-composited over white, strict bound around the wrong colour",
+    "C04-R2B": "success memo keyed without mode: pair fixed by mode 1/2 earlier, then mode 0 on the same pair",
+    "C04-R2C": "two cooperating edits: schedules hoisted to constants + relaxed schedule built with += on the strict constant: mode-2 fallback earlier in the process",
+    "C05-R2A": "two edits: rgb_to_linear accepts 'already normalised' values and luminance calls it per channel: any channel equal to 1",
+    "C05-R2B": "get_wcag_level memo keyed without large: same colours queried at both text sizes in one process",
+    "C05-R2C": "bulk re-measures the returned colour only on success: very_readable/mode 0 fixes that fail but return a better colour get the original's label",
+    "C06-R2A": "hsl S/L reader divides by 100 only above 1: hsl() strings with saturation or lightness in (0,1]%",
+    "C06-R2B": "make_readable stores the intermediate Color as self.text after success: second call on the same ColorPair returns rgb()/tuple notation",
+    "C06-R2C": "two cooperating edits in detect_color_format and format_color: 3-digit hex without '#' returns rgb()/tuple",
+    "C07-R2A": "number regex requires a digit before the dot: rgba() alpha written '.5' is read as 5%",
+    "C07-R2B": "string memo stored only without background but looked up always: same translucent string first without, then with a background",
+    "C07-R2C": "two cooperating edits dropping both hue wraps on the hsla path: hsla() hue outside about [-240, 600]",
+    "C08-R2A": "background passed to the parser only for rgba/hsla/rgba_tuple formats: alpha-carrying rgb() text (rgb(r g b / a), rgb(r,g,b,a)) on a non-white background",
+    "C08-R2B": "custom-property table created once before the per-file loop: directory run where a later file uses var(--x) only an earlier file defines",
+    "C08-R2C": "two cooperating edits: target ratio becomes a keyword the nested recursion does not forward: --premium and a rule inside @media/@supports with ratio in [4.5,7)",
+    "C09-R2A": "new colour patched into the block text by regex: an earlier *-color declaration with the same literal is rewritten instead",
+    "C09-R2B": "stem.removesuffix('_cm'): explicit run on theme_cm.css overwrites the input",
+    "C09-R2C": "two cooperating edits: declaration map keyed by source position and hoisted out of the per-file loop: multi-file run, rule at the same line/column as another file's :root block",
+    "C10-R2A": "hue helper treats |a|,|b| < 5e-3 as zero (harmless for CIELAB, not for OKLab): near-neutral off-greys get H=0 and do not round-trip",
+    "C10-R2B": "memo on rgb_to_oklch_safe keyed by packed int: an invalid triple first, then the valid colour it aliases returns the grey fallback",
+    "C10-R2C": "two cooperating edits (linear clamp removed + abs() in the toe test): out-of-gamut triples reach pow(negative) -> TypeError, safe differs from plain",
+    "C11-R2A": "precedence slip in the linear branch of the Lab transform: colours with X/Xn, Y/Yn or Z/Zn below (6/29)^3 (near-blacks, dark browns/olives)",
+    "C11-R2B": "dE cache keyed on the six sorted channel values: different pairs built from the same six numbers in one process",
+    "C11-R2C": "two cooperating edits around rgb_to_linear: a channel equal to 1 is taken as full intensity in rgb_to_xyz",
+    "C12-R2A": "bulk keeps the untouched input when success is False: unfixable entries differ from the single-pair best attempt",
+    "C12-R2B": "bulk memo keyed without large: same colours/notation/mode at both text sizes in one process or one mixed list",
+    "C12-R2C": "two cooperating edits: get_wcag_level returns 'AA Large' and bulk maps levels through a table without it: large-text results with ratio in [3,4.5)",
+    "C13-R2A": "number regex requires a digit before the dot: alpha '.5' in rgb()/rgba() strings read as 5%",
+    "C13-R2B": "memo for 'opaque' string formats also catches rgb(r g b / a), rgb(r,g,b,a), 'r, g, b, a': same string reused over another background",
+    "C13-R2C": "two cooperating edits: fixer returns the original translucent input on the 'already passes' path, re-parsed without background context",
+    "C14-R2A": "hex pairs parsed with int(pair,16): '#0000-f' valid with rgb (0,0,-15); make_readable/bulk then raise",
+    "C14-R2B": "parse memo stores (format, rgb) but not the error: second construction of the same invalid string has error None",
+    "C14-R2C": "two cooperating edits: detect_color_format moved out of the try and made to read the alpha: 4-element sequences with unusable alpha raise ValueError",
+    "C15-R2A": "lru_cache on Color parsing that cannot tell (1,0,0) from (1.0,0.0,0.0) (and int-RGBA from float-HSLA tuples)",
+    "C15-R2B": "try/except unpacking with large=False hoisted above the loop: 2-element bulk entry after a (..,True) entry",
+    "C15-R2C": "two cooperating edits: default compositing backdrop becomes a module constant that the CLI sets from --default-bg and restores without finally: early 'No CSS files found' return leaks it",
+    "C16-R2A": "relaxed mode drops the up-front recursive pass: mode-1 answer competes with the single-shot relaxed search (1-3% of pairs, 10-15% very_readable)",
+    "C16-R2B": "result cache keyed without large: mode 1 normal size, then mode 1 large (stale), then mode 2 large (fresh)",
+    "C16-R2C": "two cooperating edits: 'AA Large' label + success re-derived from the label: ordinary large-text result in [3,4.5) reported failed while very_readable succeeds",
+    "C17-R2A": "show=True returns early with the raw input on the 'already accessible' arm: non-canonical spellings of already readable text",
+    "C17-R2B": "lru_cache on the resolved report path: save_report, chdir, save_report again writes into the old directory",
+    "C17-R2C": "two cooperating edits: package logger with a stdout handler + logger.info on the relaxed fallback path: plain mode-2 call on an unfixable pair prints",
+    "C18-R2A": "with_name(stem+'_cm').with_suffix(suffix): stems containing a dot (theme.min.css) write theme.css and compound",
+    "C18-R2B": "per-run tuned cache keyed on (text rgb, bg rgb): same failing pair in different notations in different files",
+    "C18-R2C": "two cooperating edits: OSError wrapped in click.FileError + click exceptions re-raised in the per-file loop: unreadable *.css entry aborts the run",
+    "C19-R2A": "NFKC normalisation applied after escaping: fullwidth/small-form < > & \" in selectors or file names fold into live markup",
+    "C19-R2B": "directory part joined raw after escaping the file name: stylesheet in a folder whose name contains < or &",
+    "C19-R2C": "two cooperating edits: tuned_fg no longer escaped + bulk keeps the caller's spelling when nothing changed: already readable pair with markup in the colour string",
+}
+FIRST_MISSED2 = {
+    "C02-R2B": "same-string shard (one translucent string over many backgrounds in one process); a composite outside C13's tolerance is now a C02 violation",
+    "C05-R2C": "bulk status judged on pairs that need fixing under every mode/very_readable, including failed fixes",
+    "C07-R2B": "the same translucent string parsed over a sequence of backgrounds (none, bg1, bg2, none, bg)",
+    "C08-R2A": "translucent text spellings (rgba, hsla, rgb(r,g,b,a), rgb(r g b / a)) in generated sheets, judged over the rule's own background",
+    "C10-R2B": "alias-after-invalid history for the safe variants",
+    "C12-R2B": "twin entries: same colours and notation at the other text size",
+    "C13-R2B": "alpha-carrying rgb() and informal spellings from a small pool, so strings repeat across backgrounds",
+    "C15-R2C": "early-ending in-process CLI runs (empty / outputs-only / non-css target) with --default-bg, and translucent-background probes",
+    "C16-R2B": "configuration order shuffled per pair",
+    "C17-R2B": "working directory changed between calls",
+    "C18-R2B": "same failing pairs in every file, each file in its own notation, first in the file",
+    "C19-R2A": "Unicode compatibility forms of markup metacharacters in the alphabet",
+}
+
+
+def archive(key, pid, src, v, needs, missed):
+    if not os.path.exists(os.path.join(src, v + ".diff")):
+        print(key, "missing deliverables")
+        return
+    dst = os.path.join(HERE, "seeded", key)
+    os.makedirs(dst, exist_ok=True)
+    shutil.copy(os.path.join(src, v + ".diff"), os.path.join(dst, "patch.diff"))
+    shutil.copy(os.path.join(src, f"demo_{v}.py"), os.path.join(dst, "demo.py"))
+    if os.path.exists(os.path.join(src, "NOTES.md")):
+        shutil.copy(os.path.join(src, "NOTES.md"), os.path.join(dst, "NOTES.md"))
+    p = subprocess.run([os.path.join(HERE, "tools", "seedcheck.sh"), pid, os.path.join(dst, "patch.diff"), os.path.join(dst, "demo.py")],
+                       stdout=subprocess.PIPE, stderr=subprocess.STDOUT, text=True)
+    out = p.stdout
+    if os.path.exists(os.path.join(dst, "patch.diff.rebased")):
+        os.replace(os.path.join(dst, "patch.diff.rebased"), os.path.join(dst, "patch.diff"))
+    tests = re.search(r"tests\(with change\): (.*)", out)
+    demo = re.search(r"demo clean rc=(\d+).*; with change rc=(\d+)", out)
+    chk = re.search(r"check (C\d+) (\w+) on changed tree: rc=(\d+) :: (.*)", out)
+    meta = {
+        "id": key, "breaks_property": pid, "needs_to_manifest": needs,
+        "source": "independent sub-agent given only the property text and a scratch worktree",
+        "confirmed": {
+            "command": f"tools/seedcheck.sh {pid} seeded/{key}/patch.diff seeded/{key}/demo.py  (scratch worktree of /repo HEAD under /tmp/sv, removed afterwards)",
+            "repo_head": subprocess.run(["git", "-C", "/repo", "rev-parse", "--short", "HEAD"], stdout=subprocess.PIPE, text=True).stdout.strip(),
+            "tests_with_change": tests.group(1) if tests else None,
+            "demo_rc_clean": int(demo.group(1)) if demo else None, "demo_rc_with_change": int(demo.group(2)) if demo else None,
+            "check": chk.group(1) if chk else None, "tier": chk.group(2) if chk else None, "check_rc_on_changed_tree": int(chk.group(3)) if chk else None,
+            "first_violation_line": (chk.group(4)[:300] if chk else None),
+        },
+        "caught": bool(chk and chk.group(3) == "1"),
+        "initially_missed": missed is not None, "strengthening": missed,
+    }
+    json.dump(meta, open(os.path.join(dst, "meta.json"), "w"), indent=1)
+    print(key, "tests:", meta["confirmed"]["tests_with_change"], "demo:", meta["confirmed"]["demo_rc_clean"], meta["confirmed"]["demo_rc_with_change"],
+          "check rc:", meta["confirmed"]["check_rc_on_changed_tree"], flush=True)
+
+
 def main():
     want = sys.argv[1:]
+    if want and want[0] == "round2":
+        for key in sorted(NEEDS2):
+            if len(want) > 1 and key not in want[1:]:
+                continue
+            pid, v = key.split("-R2")
+            archive(key, pid, os.path.join("/tmp/seed2", pid + ".out"), v, NEEDS2[key], FIRST_MISSED2.get(key))
+        return
     for key in sorted(NEEDS):
         if want and key not in want:
             continue
